@@ -141,11 +141,13 @@ def run(ctx):
             if a is None:
                 ctx.missing("R1", "parser arm for %s" % tok)
                 continue
-            news = a.calls_matching("printer::Printer::new")
+            feas = C.arm_blocks_for_token(fn, a, tok)
+            news = [(b, t) for b, t in a.calls_matching("printer::Printer::new") if b in feas]
             ds = []
             for b, t in news:
-                o = prim.origin_of_operand(fn, t.args[0]).strip()
-                ds.append(str(o.a).split("::")[-1] if o.k == "agg" else o.fmt())
+                for o in C.alternatives_for_token(fn, a, prim.origin_of_operand(fn, t.args[0]), tok):
+                    o = o.strip()
+                    ds.append(str(o.a).split("::")[-1] if o.k == "agg" else o.fmt())
             ctx.ob("R1", "token:%s" % tok, ds == [want] and a.boxed_matcher_types() == [M + "printer::Printer"], "%s constructs Printer with delimiter %s (boxed %s); oracle %s" % (tok, ds, [prim.short(x) for x in a.boxed_matcher_types()], want), fn=fn, where=prim.site(fn, a.entry), how="dispatch table")
     # default -print added by build_top_level_matcher uses Newline
     bt = ctx.fn("R1", C.BTLM)
